@@ -255,6 +255,9 @@ def cmp_c19(case, got):
         if got["d"] != e["d"] or got["v"] != e["v"]:
             return [("wait status %#06x decodes to %s(%s), expected %s(%s)" % (case["raw"], got["d"], got["v"], e["d"], e["v"]),
                      "status:" + e["d"])]
+        if got.get("back") != e["back"]:
+            return [("wait status %#06x: the portable form %s(%s) converts back to %s, expected %#06x" % (case["raw"], got["d"], got["v"],
+                     ("%#06x" % got["back"]) if isinstance(got.get("back"), int) else got.get("back"), e["back"]), "status-back:" + e["d"])]
         return []
     bad = []
     if got["n"] != case["expect"]:
